@@ -4,6 +4,7 @@ package main
 
 import (
 	"fmt"
+	"strconv"
 	"go/ast"
 	"go/types"
 	"strings"
@@ -204,6 +205,11 @@ func init() {
 	}
 	models["strings.Contains"] = func(u *Unit, st *State, x *ast.CallExpr, _ *Val, fn *types.Func) *Val {
 		a, b := u.eval(st, x.Args[0]), u.eval(st, x.Args[1])
+		if strings.HasPrefix(b.S, "\"") && b.S == strings.ToLower(b.S) {
+			// a lower-case literal found in s is also found in strings.ToLower(s)
+			lowf := u.d.fun("fn!strings.ToLower", []string{SStr}, SStr)
+			st.assumeFact(tImp(app("str.contains", a.S, b.S), app("str.contains", app(lowf, a.S), b.S)))
+		}
 		return &Val{T: types.Typ[types.Bool], S: app("str.contains", a.S, b.S)}
 	}
 	models["strings.TrimPrefix"] = func(u *Unit, st *State, x *ast.CallExpr, _ *Val, fn *types.Func) *Val {
@@ -236,6 +242,7 @@ func init() {
 		a, b := u.eval(st, x.Args[0]), u.eval(st, x.Args[1])
 		uf := u.d.fun("fn!errors.Is", []string{SInt, SInt}, SBool)
 		r := app(uf, a.S, b.S)
+		u.usesErrIs = true
 		st.assumeFact(tImp(tEq(a.S, b.S), r))
 		st.assumeFact(tImp(tAnd(tEq(a.S, "0"), app("distinct", b.S, "0")), tNot(r)))
 		return &Val{T: types.Typ[types.Bool], S: r}
@@ -345,6 +352,65 @@ func init() {
 	}
 	models["net/http.NewRequestWithContext"] = newReq
 	models["net/http.NewRequest"] = newReq
+
+	// ---- fmt.Errorf / errors.New: fresh non-nil error with a message text and (for %w) a wrapped error
+	models["errors.New"] = func(u *Unit, st *State, x *ast.CallExpr, _ *Val, fn *types.Func) *Val {
+		msg := u.eval(st, x.Args[0])
+		r := u.newError(st)
+		st.assumeFact(tEq(app(u.errTextFn(), r), msg.S))
+		st.assumeFact(tEq(app(u.wrapsFn(), r), "0"))
+		return &Val{T: u.typeOf(x), S: r}
+	}
+	models["fmt.Errorf"] = func(u *Unit, st *State, x *ast.CallExpr, _ *Val, fn *types.Func) *Val {
+		u.trusted["model: fmt.Errorf yields a fresh error; %w wraps its argument (errors.Is/As see through it); message text = format with each verb rendered as an unknown string (%w,%v,%s of an error: its text); fmt's own error types are not net.Error / syscall.Errno / *net.OpError"] = true
+		var args []*Val
+		for _, a := range x.Args {
+			args = append(args, u.eval(st, a))
+		}
+		r := u.newError(st)
+		format, isConst := "", false
+		if tv, ok := u.info.Types[x.Args[0]]; ok && tv.Value != nil {
+			format, isConst = constantString(tv.Value), true
+		}
+		wrapped := "0"
+		if isConst {
+			pieces, verbs := splitFormat(format)
+			text := strLit(pieces[0])
+			lowf := u.d.fun("fn!strings.ToLower", []string{SStr}, SStr)
+			ltext := strLit(strings.ToLower(pieces[0]))
+			for i, vb := range verbs {
+				var part string
+				ai := i + 1
+				switch {
+				case ai < len(args) && (vb == 'w' || vb == 'v' || vb == 's') && types.TypeString(args[ai].T, nil) == "error" || (ai < len(args) && vb == 'w'):
+					part = app(u.errTextFn(), args[ai].S)
+					if vb == 'w' {
+						wrapped = args[ai].S
+					}
+				case ai < len(args) && (vb == 's' || vb == 'v') && kindOf(args[ai].T) == kString:
+					part = args[ai].S
+				case vb == 'f' || vb == 'd':
+					// A rendered number consists of [0-9.+-] only. Substring tests against patterns that contain none
+					// of these characters cannot overlap it, so it is represented by the single digit "0".
+					u.trusted["model: numeric printf verbs render as \"0\" in error texts (sound for substring tests with patterns free of [0-9.+-])"] = true
+					part = "\"0\""
+				default:
+					part = u.d.fresh("verbtext", SStr)
+				}
+				text = app("str.++", text, part, strLit(pieces[i+1]))
+				lpart := app(lowf, part)
+				if part == "\"0\"" {
+					lpart = part
+				}
+				ltext = app("str.++", ltext, lpart, strLit(strings.ToLower(pieces[i+1])))
+			}
+			st.assumeFact(tEq(app(u.errTextFn(), r), text))
+			// strings.ToLower distributes over the pieces (literal pieces lowered by govc, digits unchanged)
+			st.assumeFact(tEq(app(lowf, app(u.errTextFn(), r)), ltext))
+		}
+		st.assumeFact(tEq(app(u.wrapsFn(), r), wrapped))
+		return &Val{T: u.typeOf(x), S: r}
+	}
 
 	// ---- context
 	models["(context.Context).Err"] = func(u *Unit, st *State, x *ast.CallExpr, recv *Val, fn *types.Func) *Val {
@@ -782,4 +848,54 @@ func (e *Engine) timeType() types.Type {
 		}
 	}
 	return types.Typ[types.Int64]
+}
+
+func constantString(v interface{ ExactString() string }) string {
+	q := v.ExactString()
+	if s, err := strconv.Unquote(q); err == nil {
+		return s
+	}
+	return q
+}
+
+// splitFormat splits a printf format into literal pieces and verb letters ("%%" is a literal percent).
+func splitFormat(f string) (pieces []string, verbs []rune) {
+	cur := ""
+	for i := 0; i < len(f); i++ {
+		if f[i] != '%' {
+			cur += string(f[i])
+			continue
+		}
+		if i+1 < len(f) && f[i+1] == '%' {
+			cur += "%"
+			i++
+			continue
+		}
+		j := i + 1
+		for j < len(f) && strings.ContainsRune("+-# 0123456789.*[]", rune(f[j])) {
+			j++
+		}
+		if j < len(f) {
+			verbs = append(verbs, rune(f[j]))
+		} else {
+			verbs = append(verbs, '?')
+		}
+		pieces = append(pieces, cur)
+		cur = ""
+		i = j
+	}
+	pieces = append(pieces, cur)
+	return
+}
+
+func (u *Unit) errTextFn() string { return u.d.fun("pure!(error).Error!0", []string{SInt}, SStr) }
+func (u *Unit) wrapsFn() string   { return u.d.fun("errwraps", []string{SInt}, SInt) }
+
+// newError: a fresh, non-nil error value created by fmt/errors; not one of the network error types.
+func (u *Unit) newError(st *State) string {
+	r := u.d.fresh("err", SInt)
+	st.assumeFact(app(">", r, st.wm))
+	st.wm = r
+	u.plainErrs = append(u.plainErrs, r)
+	return r
 }
